@@ -1,4 +1,4 @@
-HOOK_COMMITS = ["6a4fe2f", "36f6cc7", "cb89a57"]
+HOOK_COMMITS = ["6a4fe2f", "36f6cc7", "cb89a57", "5b9f00f", "af3290e"]
 
 _NOTE = ("Trusted: Lean kernel; axioms propext/Quot.sound/Classical.choice only (audited each run); the hand-written model is tied "
          "to the code by the correspondence stream(s) and regenerated facts, so its reach is bounded by generator coverage "
@@ -66,6 +66,27 @@ META["C16"] = {
     "design_ref": "DESIGN.md section 5 C16",
     "note": _NOTE + " net/netip and fmt.Sscan are parameters with assumed laws (EnvOK), checked against the stdlib each run.",
     "technique": "Lean 4 structural induction on the address grammar + differential correspondence with the Go parsers",
+}
+
+META["C10"] = {
+    "text": "Proof: for every schedule (any interleaving, duplication, loss, clean-up at any moment) over the genuine fragments of "
+            "any number of messages from any number of sources with distinct (source, id) resp. (source, origin time, counter), "
+            "every payload the fragmenting swarm or the message-box swarm delivers is exactly the payload of the message whose "
+            "fragment completed it, a message with a missing fragment is never delivered, and delivering all fragments in any "
+            "order delivers the payload once. Real receivers are fed reordered/duplicated/dropped/forged datagrams and compared "
+            "with the model datagram by datagram.",
+    "design_ref": "DESIGN.md section 5 C10",
+    "note": _NOTE,
+    "technique": "Lean 4 inductive invariant over arbitrary schedules + lock-step differential correspondence",
+}
+META["C09"] = {
+    "text": "Proof, per layer: a payload no longer than MTU() is accepted by fragswarm / mbapp / every multiplexer kind and every "
+            "datagram it is split into fits the inner MTU with the part count inside its 8/16-bit field; a longer payload is "
+            "refused with the MTU error; the overhead constants are regenerated from the source. Complete delivery of accepted "
+            "payloads is C10. Nestings over real sockets are covered by correspondence only.",
+    "design_ref": "DESIGN.md section 5 C09",
+    "note": _NOTE,
+    "technique": "Lean 4 arithmetic theorems over regenerated constants + differential correspondence at size boundaries",
 }
 
 _PENDING = "check under construction in this build round; will be claimed once its model, theorems and correspondence stream pass on the unchanged tree"
